@@ -121,6 +121,24 @@ theorem reorderedRange_named (A B : Aff) (o : Order) (ord : List Nat) (ncs : Coo
   simp [List.getD_eq_getElem?_getD, List.getElem?_eq_getElem hk1, List.getElem?_eq_getElem hk2,
     List.getElem?_eq_getElem hz, List.getElem_zip]
 
+/-- `reordered_*` accepts an order only if it is a permutation of the axis
+    indices (`_checked_order`), so the permutation hypothesis of the theorems
+    above always holds when the operation succeeds. -/
+theorem reorder_accepts_only_permutations (cs ncs : CoordSys) (o : Order) (ord : List Nat)
+    (h : reorderCS cs o = .ok (ord, ncs)) : ord.Perm (List.range cs.names.length) := by
+  unfold reorderCS at h
+  cases hr : resolveOrder cs o with
+  | error e => rw [hr] at h; cases h
+  | ok ord' =>
+      rw [hr] at h
+      simp only at h
+      split_ifs at h with h1 h2
+      unfold mkCS at h
+      split_ifs at h
+      simp only [Except.ok.injEq, Prod.mk.injEq] at h
+      obtain ⟨rfl, _⟩ := h
+      exact List.isPerm_iff.mp (by simpa using h1)
+
 /-- the default order (reversal) is a permutation, so the two theorems above
     apply to `reordered_domain()` / `reordered_range()` without arguments -/
 theorem reverse_is_permutation (n : Nat) : (List.range n).reverse.Perm (List.range n) :=
